@@ -84,8 +84,10 @@ def check_shape(model, rep):
     a counting if-chain, a match statement, an accumulating loop or a filter - the evaluator does not care."""
     import itertools
     m = model.member('PWMControl', 'apply_rules')
+    import os
+    deep = os.environ.get('VERIF_TIER') == 'thorough'
     configs = []
-    for n in range(0, 5):
+    for n in range(0, 7 if deep else 5):
         for mask in itertools.product((False, True), repeat=n):
             configs.append([('p' if x else None) for x in mask])
     for n in range(1, 4):          # a proposal of exactly 0 is a proposal (identity test, not truthiness)
@@ -121,6 +123,7 @@ def check_shape(model, rep):
             rep.cannot('C14.shape', 'PWMControl.add_rule', 'method not found')
         return
     per_k = {}          # k -> [problem strings]
+    n_by_k = {}
     clip_bad = None
     zero_bad = None
     n_eval = 0
@@ -147,6 +150,7 @@ def check_shape(model, rep):
         n_eval += len(outs)
         k = sum(1 for c in cfg if c is not None)
         probs = per_k.setdefault(min(k, 4), [])
+        n_by_k[min(k, 4)] = n_by_k.get(min(k, 4), 0) + 1
         tag = '[' + ', '.join('None' if c is None else ('0' if c == 'zero' else 'p') for c in cfg) + ']'
         if not outs:
             probs.append(f'no path for the rule set {tag}')
@@ -217,7 +221,7 @@ def check_shape(model, rep):
         probs = per_k.get(k, [])
         cons = f'PWMControl.apply_rules[count={k}]'
         rep.decide(not probs, 'C14.shape', cons, probs[0] if probs else '', loc=m.loc,
-                   detail=f'{sum(1 for c in configs if min(sum(1 for x in c if x is not None), 4) == k)} rule-set configurations')
+                   detail=f'{n_by_k.get(k, 0)} rule-set configurations (rule lists of 0..{6 if deep else 4} rules)')
     rep.decide(zero_bad is None, 'C14.shape', 'PWMControl.apply_rules:zero-proposal', zero_bad or '', loc=m.loc)
     rep.decide(clip_bad is None, 'C14.clip', 'PWMControl:saturation',
                (f'a proposal of {float(clip_bad[0])} is applied as {float(clip_bad[1])}, clipping to [-1, 1] gives '
